@@ -35,7 +35,7 @@ ASSUMPTIONS = [
 ]
 REQUIRED = ["channel_reads_compared", "channel_str_path", "channel_Path", "channel_file_object", "channel_StringIO", "channel_string",
             "codec_utf-8-sig", "codec_utf-8", "codec_utf-16", "codec_utf-16-le", "codec_utf-16-be", "codec_latin-1", "codec_cp1252",
-            "eol_CR", "eol_CRLF", "history_reads_compared", "rereads_after_mutation", "quiescent_state_checks", "unmutated_object_checks"]
+            "eol_CR", "eol_CRLF", "channel_cases_indented_titles", "history_reads_compared", "rereads_after_mutation", "quiescent_state_checks", "unmutated_object_checks"]
 SOFT_DEADLINE = {"quick": 100, "thorough": 1500}
 LEVEL_TEXT = ("Exploration: (a) full product of channels x stored forms x line ends per generated text, (b) history checking with a "
               "module-state invariant at every quiescent point.")
@@ -96,6 +96,11 @@ def run_channels(case, ctx):
     lasio = ctx.lasio
     rep, codec, eolname = case["rep"], case["codec"], case["eol"]
     text = make_text(rep, case["seed"])
+    if case["seed"] % 3 == 1:
+        # section titles indented by an odd number of blanks (presentation only; byte and character offsets differ in UTF-16)
+        ind = " " * (1 + 2 * (case["seed"] % 2))
+        text = "\n".join((ind + ln) if ln.startswith("~") else ln for ln in text.split("\n"))
+        ctx.count("channel_cases_indented_titles")
     comp, unit, descr, _ = REPERTOIRES[rep]
     ref = lasio.read(io.StringIO(text))
     ref_snap = canon.clas(ref)
